@@ -10,7 +10,7 @@ they summarise.*  Quantifier: all sequences of scheduled and manual executions, 
 and query updates under a controlled clock.
 
 Proved for ALL histories (`List Op`), all integer clock positions and every starting state:
-`C29_fail_no_advance`, `C29_completed_advances`, `C29_cursor_is_last_completed_end`, `C29_chain`,
+`C29_fail_no_advance`, `C29_advance_only_if_written`, `C29_completed_advances`, `C29_cursor_is_last_completed_end`, `C29_chain`,
 `C29_label`, `C29_label_cursor`.
 
 The label clause is proved in full (`C29_label`; the sub-second label defect found by this check was
@@ -46,11 +46,13 @@ theorem execWindow_spec (st : State) (k : Kind) (ex : Bool) (a b : Int) (dry : B
     · simp [h1, h2]
     · by_cases h3 : aggFails st f = true
       · simp [h1, h2, h3]
-      · by_cases h4 : recFails f = true
-        · simp only [h1, h2, h3, h4]
-          simp [secLabelUs]
-        · simp only [h1, h2, h3, h4]
-          simp [secLabelUs]
+      · by_cases h5 : writeFails st f (aggRows st (floorSec a) (floorSec b)) = true
+        · simp [h1, h2, h3, h5]
+        · by_cases h4 : recFails f = true
+          · simp only [h1, h2, h3, h4, h5]
+            simp [secLabelUs]
+          · simp only [h1, h2, h3, h4, h5]
+            simp [secLabelUs]
   · simp [h1]
 
 /-- the start instant of a window that begins at the cursor -/
@@ -208,6 +210,71 @@ dry run — and every update / restart / source write leaves `last_processed_tim
 theorem C29_fail_no_advance (st : State) (op : Op) (h : (step st op).2.status ≠ .completed) :
     (step st op).1.lp = st.lp :=
   (step_spec st op).1 h
+
+/-- non-vacuity for the write-failure branch: the query returns a row, the buffer rejects it —
+recorded as failed, nothing written, cursor stays. -/
+example : (step { lp := some 100, src := [⟨100500000, false⟩] } (.sched 160250000000 .wr)).2.status = .aggfailed ∧
+    (step { lp := some 100, src := [⟨100500000, false⟩] } (.sched 160250000000 .wr)).2.rows = [] ∧
+    (step { lp := some 100, src := [⟨100500000, false⟩] } (.sched 160250000000 .wr)).1.lp = some 100 ∧
+    (step { lp := some 100, q := .badtime, src := [⟨100500000, false⟩] } (.sched 160250000000 .none)).1.lp = some 100 := by
+  decide
+
+/-- **C29_advance_only_if_written.** The cursor moves only when the rows of the window really were
+handed to the destination buffer: whenever an op changes `last_processed_time`, the aggregation
+succeeded, the write was not rejected, and the event carries exactly the aggregated rows of the
+recorded window. -/
+theorem C29_advance_only_if_written (st : State) (op : Op) (h : (step st op).1.lp ≠ st.lp) :
+    ∃ s e f, (step st op).2.win = some (s, e) ∧ (step st op).2.status = .completed ∧
+      (step st op).2.rows = aggRows st s e ∧ writeFails st f (aggRows st s e) = false ∧
+      (op = .sched (match op with | .sched n _ => n | .manual n _ _ _ _ => n | _ => 0) f ∨
+       ∃ n a b d, op = .manual n a b d f) := by
+  have key : ∀ (k : Kind) (ex : Bool) (a b : Int) (dry : Bool) (f : Fault),
+      (execWindow st k ex a b dry f).1.lp ≠ st.lp →
+      ∃ s e, (execWindow st k ex a b dry f).2.win = some (s, e) ∧
+        (execWindow st k ex a b dry f).2.status = .completed ∧
+        (execWindow st k ex a b dry f).2.rows = aggRows st s e ∧ writeFails st f (aggRows st s e) = false := by
+    intro k ex a b dry f hne
+    unfold execWindow at hne ⊢
+    by_cases h1 : a < b
+    · by_cases h2 : dry = true
+      · simp [h1, h2] at hne
+      · by_cases h3 : aggFails st f = true
+        · simp [h1, h2, h3] at hne
+        · by_cases h5 : writeFails st f (aggRows st (floorSec a) (floorSec b)) = true
+          · simp [h1, h2, h3, h5] at hne
+          · by_cases h4 : recFails f = true
+            · simp [h1, h2, h3, h4, h5] at hne
+            · refine ⟨floorSec a, floorSec b, ?_⟩
+              simp only [h1, h2, h3, h4, h5]
+              simp
+    · simp [h1] at hne
+  cases op with
+  | sched now f =>
+    simp only [step] at h ⊢
+    by_cases hr : st.running = true
+    · by_cases ha : st.active = true
+      · simp only [hr, ha, Bool.not_true, Bool.false_eq_true, if_false] at h ⊢
+        obtain ⟨s, e, h1, h2, h3, h4⟩ := key _ _ _ _ _ _ h
+        exact ⟨s, e, f, h1, h2, h3, h4, Or.inl rfl⟩
+      · simp [hr, ha] at h
+    · simp [hr] at h
+  | manual now s e dry f =>
+    simp only [step] at h ⊢
+    by_cases ha : st.active = true
+    · simp only [ha, Bool.not_true, Bool.false_eq_true, if_false] at h ⊢
+      cases hs : pickStart s st.lp now with
+      | none => simp [hs] at h
+      | some a =>
+        cases he : pickEnd e now with
+        | none => simp [hs, he] at h
+        | some b =>
+          simp only [hs, he] at h ⊢
+          obtain ⟨s', e', h1, h2, h3, h4⟩ := key _ _ _ _ _ _ h
+          exact ⟨s', e', f, h1, h2, h3, h4, Or.inr ⟨now, s, e, dry, rfl⟩⟩
+    · simp [ha] at h
+  | update now a i q => simp [step] at h
+  | restart now => simp [step] at h
+  | src t hst => simp [step] at h
 
 /-- **C29_completed_advances.** A completed execution (scheduled or manual) ran a window `[s, e)`
 with `s ≤ e` and moves the cursor exactly to `e`. -/
@@ -464,7 +531,9 @@ theorem C29_rerun_witness :
 `cq_scheduler.go` are the ones the model is built on: look-back constant; in both execution paths the
 order validity-check → (dry-run return) → executeAggregation → failed-record on error →
 recordExecutionAndUpdateTime; record+advance is one transaction writing `endTime.Format(RFC3339)`;
-the only writers of `last_processed_time`; the label expression; the scheduler calls `ExecuteCQ`. -/
+the only writers of `last_processed_time`; the label expression; the destination write's error is
+returned (a rejected write fails the execution); `startTime`/`endTime` are assigned only from the
+cursor, the request, or the clock (no clamp / rounding of the window); the scheduler calls `ExecuteCQ`. -/
 theorem C29_source_shape :
     Arc.Generated.C29.lookbackNs = hourNs ∧
     Arc.Generated.C29.executeCQSteps =
@@ -479,6 +548,15 @@ theorem C29_source_shape :
     Arc.Generated.C29.recordCallers = ["ExecuteCQ", "handleExecute"] ∧
     Arc.Generated.C29.updateLastProcessedTimeCallers = [] ∧
     Arc.Generated.C29.labelExpr = "startTime.UTC().Truncate(time.Second).UnixMicro()" ∧
+    Arc.Generated.C29.writeStep = "if err := write; err != nil { return 0, wrap(err) }" ∧
+    Arc.Generated.C29.executeCQStartAssigns =
+      ["time.Parse(time.RFC3339, *cq.LastProcessedTime)", "startTime.UTC()", "time.Now().UTC().Add(-1 * time.Hour)"] ∧
+    Arc.Generated.C29.executeCQEndAssigns = ["time.Now().UTC()"] ∧
+    Arc.Generated.C29.handleExecuteStartAssigns =
+      ["time.Parse(time.RFC3339, *req.StartTime)", "startTime.UTC()", "time.Parse(time.RFC3339, *cq.LastProcessedTime)",
+       "startTime.UTC()", "time.Now().UTC().Add(-1 * time.Hour)"] ∧
+    Arc.Generated.C29.handleExecuteEndAssigns =
+      ["time.Parse(time.RFC3339, *req.EndTime)", "endTime.UTC()", "time.Now().UTC()"] ∧
     Arc.Generated.C29.windowFormat = "time.RFC3339" ∧
     Arc.Generated.C29.schedulerCalls = ["ExecuteCQ"] := by
   decide
